@@ -193,3 +193,13 @@ impl ObjectCountBuilder {
         }
     }
 }
+
+#[cfg(rosu_pp_verif)]
+impl ObjectCountBuilder {
+    pub(crate) fn verif_into_events(self) -> Vec<(bool, u32)> {
+        self.into_gradual()
+            .into_iter()
+            .map(|count| (count.fruit, count.tiny_droplets))
+            .collect()
+    }
+}
